@@ -18,10 +18,10 @@ def plans(quick):
         }
     return {
         "T1-one-model": dict(Ws={1, 2}, Layouts1={2, 3, 4, 5, 6}, Layouts2={9}, BaseKinds={0, 1, 2}, K=3, CPool={1, 2, 3, 4}, TPool={1, 2},
-                             TextAlpha={A, HI}, MaxText=5, Tie=False, Swap=False),
+                             TextAlpha={A, HI}, MaxText=4, Tie=False, Swap=False),
         # (sized to stay below ~25 GB of resident memory per family: the cases of one family are held while they are replayed)
         "T2-two-models": dict(Ws={2}, Layouts1={0, 1, 2, 4}, Layouts2={2, 3, 6}, BaseKinds={0, 3}, K=2, CPool={1, 2, 6}, TPool={1, 3, 4},
-                              TextAlpha={A, HI, ONE}, MaxText=4, Tie=False, Swap=True),
+                              TextAlpha={A, HI, ONE}, MaxText=3, Tie=False, Swap=True),
         "T3-ties": dict(Ws={1, 2}, Layouts1={2, 3}, Layouts2={2, 9}, BaseKinds={0, 2}, K=2, CPool={1, 2}, TPool={1},
                         TextAlpha={A, HI}, MaxText=4, Tie=True, Swap=False),
     }
